@@ -16,14 +16,23 @@ use crate::script::{self, RunResult, RunSpec, Script, Step};
 
 fn gen_prog(s: &mut Src, allow_fail: bool) -> (&'static str, Program) {
     let sp = SyncParams { max_threads: 2, max_ops: 6, ..Default::default() };
-    match s.pick(if allow_fail { 8 } else { 6 }) {
+    match s.pick(if allow_fail { 9 } else { 7 }) {
         0 | 1 => ("tls-lazy", gen::tls_lazy_prog(s, 3, 7, true)),
+        // SeqCst fences and accesses: state that is global to an execution (the SeqCst clock)
+        6 => ("fences", {
+            let lp = gen::LitmusParams { sc_only: false, fences: true, rmw: false, free_mix: false, max_threads: 2, max_events: 5, joins: false, late_spawn: false };
+            if s.chance(1, 2) {
+                gen::litmus_chain(s, &lp)
+            } else {
+                gen::litmus_shape(s, &lp)
+            }
+        }),
         2 => ("litmus", gen::litmus(s, &gen::LitmusParams { sc_only: false, fences: true, rmw: true, free_mix: true, max_threads: 2, max_events: 5, joins: false, late_spawn: true })),
         3 => ("locks", gen::sync_prog(s, &SyncParams { mutex: true, rwlock: true, ordered_locks: true, max_threads: 3, max_ops: 6, ..sp.clone() })),
         4 => ("channel", gen::sync_prog(s, &SyncParams { channel: true, max_threads: 3, max_ops: 6, joins: true, ..sp.clone() })),
         5 => ("notify-condvar", gen::sync_prog(s, &SyncParams { notify: true, condvar: true, atomics: true, max_threads: 2, max_ops: 6, joins: true, ..sp.clone() })),
         // failing models: deadlocks, leaks
-        6 => ("deadlocky", gen::sync_prog(s, &SyncParams { mutex: true, park: true, channel: true, ordered_locks: false, max_threads: 3, max_ops: 7, joins: true, ..sp.clone() })),
+        7 => ("deadlocky", gen::sync_prog(s, &SyncParams { mutex: true, park: true, channel: true, ordered_locks: false, max_threads: 3, max_ops: 7, joins: true, ..sp.clone() })),
         _ => ("tls-lazy-panic", {
             let mut p = gen::tls_lazy_prog(s, 2, 6, true);
             let t = s.pick(p.threads.len());
